@@ -18,6 +18,7 @@ import (
 	"sync/atomic"
 	"time"
 
+	"github.com/evolbioinfo/gotree/io/phyloxml"
 	"github.com/evolbioinfo/gotree/io/utils"
 	"github.com/evolbioinfo/gotree/support"
 	"github.com/evolbioinfo/gotree/tree"
@@ -268,8 +269,32 @@ type c11Item struct {
 	err  error
 }
 
+// c11Doc, when set, replaces the items by a document read by the real multi-tree reader in the given format. The
+// input counts as consumed once the reader has closed its channel or an error record has been handed over (after
+// an error record nothing more is to come: the call has to return).
+var c11Doc *struct {
+	text   string
+	format int
+}
+
 // feed returns the input channel and a function telling whether the input has been consumed.
 func c11Feed(items []c11Item, prefilled bool) (<-chan tree.Trees, func() bool) {
+	if c11Doc != nil {
+		src := utils.ReadMultiTrees(bufio.NewReader(strings.NewReader(c11Doc.text)), c11Doc.format)
+		out := make(chan tree.Trees)
+		var fin int32
+		go func() {
+			for t := range src {
+				out <- t
+				if t.Err != nil {
+					atomic.StoreInt32(&fin, 1)
+				}
+			}
+			close(out)
+			atomic.StoreInt32(&fin, 1)
+		}()
+		return out, func() bool { return atomic.LoadInt32(&fin) == 1 }
+	}
 	mk := func(i int, it c11Item) tree.Trees {
 		if it.err != nil {
 			return tree.Trees{Tree: nil, Id: i, Err: it.err}
@@ -591,6 +616,84 @@ func c11Error(c *Ctx, o *Obs, r *rand.Rand, fn, et, pos string, rep int) {
 	}
 	at := map[string]int{"first": 0, "middle": ntrees / 2, "last": ntrees}[pos]
 	items = append(items[:at:at], append([]c11Item{bad}, items[at:]...)...)
+	ats := map[int]bool{at: true}
+	// variants: one erroneous tree; several of them (more than two, so that more than two workers meet one); the
+	// erroneous tree inside a document that goes through the real reader (Newick, Nexus, PhyloXML)
+	variant := (rep + len(et) + len(pos) + len(fn)) % 3
+	docFormat := ""
+	switch {
+	case variant == 1:
+		extra := 2 + r.Intn(4)
+		for j := 0; j < extra; j++ {
+			p := r.Intn(len(items) + 1)
+			items = append(items[:p:p], append([]c11Item{bad}, items[p:]...)...)
+			shifted := map[int]bool{p: true}
+			for a := range ats {
+				if a >= p {
+					shifted[a+1] = true
+				} else {
+					shifted[a] = true
+				}
+			}
+			ats = shifted
+		}
+		et += fmt.Sprintf("(x%d)", len(ats))
+	case variant == 2 && et == "erritem":
+		docFormat = gen.Pick(r, "newick", "nexus", "phyloxml")
+		var b strings.Builder
+		switch docFormat {
+		case "newick":
+			for _, it := range items {
+				if it.err != nil {
+					b.WriteString("((a,b;\n")
+				} else {
+					b.WriteString(it.text + "\n")
+				}
+			}
+		case "nexus":
+			b.WriteString("#NEXUS\nBEGIN TREES;\n")
+			for i, it := range items {
+				if it.err != nil {
+					fmt.Fprintf(&b, "  TREE t%d = ((a,b;\n", i)
+				} else {
+					fmt.Fprintf(&b, "  TREE t%d = %s\n", i, it.text)
+				}
+			}
+			b.WriteString("END;\n")
+		default:
+			var ts []*tree.Tree
+			for _, it := range items {
+				if it.err == nil {
+					ts = append(ts, mustParse(it.text))
+				}
+			}
+			x, err := phyloxml.WritePhyloXML(chanOf(ts...))
+			if err != nil {
+				o.Inconclusive = "own PhyloXML document: " + err.Error()
+				return
+			}
+			// the document is cut inside the tree at the chosen position
+			cut := strings.Index(x, "<phylogeny")
+			for j := 0; j < at && cut >= 0; j++ {
+				nx := strings.Index(x[cut+1:], "<phylogeny")
+				if nx < 0 {
+					break
+				}
+				cut += 1 + nx
+			}
+			if cut < 0 {
+				cut = len(x) / 2
+			}
+			b.WriteString(x[:cut] + "<phylogeny rooted=\"false\"><clade><clade><name>a</name>")
+		}
+		c11Doc = &struct {
+			text   string
+			format int
+		}{b.String(), map[string]int{"newick": utils.FORMAT_NEWICK, "nexus": utils.FORMAT_NEXUS, "phyloxml": utils.FORMAT_PHYLOXML}[docFormat]}
+		defer func() { c11Doc = nil }()
+		et += "(in a " + docFormat + " document)"
+		o.AddSet("error_documents", docFormat)
+	}
 	inp := fmt.Sprintf("fn=%s error=%s at %s (item %d of %d)\nref: %s\nbad: %s\ntrees:\n%s", fn, et, pos, at, len(items), refText, bad.text, strings.Join(boots, "\n"))
 	o.Sample = Trunc(inp, 400)
 	o.Class = fmt.Sprintf("%s/error-%s-%s", fn, et, pos)
@@ -621,18 +724,25 @@ func c11Error(c *Ctx, o *Obs, r *rand.Rand, fn, et, pos string, rep int) {
 			o.Inconclusive = what + ": wall-clock watchdog:\n" + Trunc(got.dump, 600)
 			return
 		}
+		if docFormat != "" {
+			// the reader stops at the malformed tree: what is asked is that the error reaches the caller and the call returns
+			o.Check(got.err != nil || len(got.errIDs) > 0, "error_not_reported", what+": neither the call nor any record carries the reader's error", inp, tag...)
+			continue
+		}
 		switch fn {
 		case "compare", "weighted":
 			if !o.Check(got.err == nil, "error_workload_call_failed", what+": "+fmt.Sprint(got.err), inp, tag...) {
 				continue
 			}
-			o.Check(got.errIDs[at], "error_not_reported", what+": the record of the erroneous tree carries no error", inp, tag...)
+			for a := range ats {
+				o.Check(got.errIDs[a], "error_not_reported", fmt.Sprintf("%s: the record of the erroneous tree %d carries no error", what, a), inp, tag...)
+			}
 			for id := 0; id < len(items); id++ {
 				recs := got.perID[id]
 				if !o.Check(len(recs) == 1, "not_exactly_once", fmt.Sprintf("%s: tree id %d delivered %d times", what, id, len(recs)), inp, tag...) {
 					continue
 				}
-				if id != at {
+				if !ats[id] {
 					o.Check(!got.errIDs[id], "error_on_good_tree", fmt.Sprintf("%s: tree id %d carries an error", what, id), inp, tag...)
 					if base != nil && len(base.perID[id]) == 1 {
 						o.Check(recs[0] == base.perID[id][0], "result_differs", fmt.Sprintf("%s: tree id %d: %s, 1 thread: %s", what, id, Trunc(recs[0], 300), Trunc(base.perID[id][0], 300)), inp, tag...)
